@@ -365,9 +365,11 @@ theorem precommitBlock_sim {c : SysCfg} {p : Val} {s : Node} {L : List Vote} (hg
     rw [List.append_nil] at h2
     exact h2
 
-/-- drop the lock on a polka, at the current round, for something else (or when not locked) -/
-theorem unlock_sim {c : SysCfg} {p : Val} {s s1 : Node} {L : List Vote} (hg : Good c p s L)
-    (hst : ¬ Step.precommit ≤ s.step) (w : Option Block) (hp : polka c.abs L s.height s.round w)
+/-- drop the lock on a polka for something else at a round `ρ` with `LockedRound < ρ ≤ Round`
+(or when not locked at all) -/
+theorem unlock_sim_at {c : SysCfg} {p : Val} {s s1 : Node} {L : List Vote} (hg : Good c p s L)
+    (ρ : Nat) (w : Option Block) (hp : polka c.abs L s.height ρ w)
+    (hρ : ∀ lb, s.lockedBlock = some lb → s.lockedRound < (ρ : Int) ∧ ρ ≤ s.round)
     (hw : ∀ lb, s.lockedBlock = some lb → w ≠ some lb.id)
     (e1 : s1.height = s.height) (e2 : s1.round = s.round) (e3 : s1.step = s.step)
     (e4 : s1.votes = s.votes) (e5 : s1.queue = s.queue) (e6 : s1.sent = s.sent)
@@ -385,16 +387,26 @@ theorem unlock_sim {c : SysCfg} {p : Val} {s s1 : Node} {L : List Vote} (hg : Go
       simp only [absNode, e1, e2, e3, e8, e9, e10, hl, hg.1.lockNone hl]
     rw [this]; exact .refl _ _
   | some lb =>
-    have hlt : s.lockedRound < (s.round : Int) := by
-      rcases Int.lt_or_eq_of_le hg.1.lockR.1 with h1 | h1
-      · exact h1
-      · exact absurd (hg.1.lockR.2 h1) hst
     have h1 := APath.single (c := c.abs) (p := p) (L := L)
-      (AAct.unlock (absNode s) lb.id s.round w (by simp [absNode, hl]) ⟨hlt, Nat.le_refl _⟩ (hw lb hl) hp)
+      (AAct.unlock (absNode s) lb.id ρ w (by simp [absNode, hl]) (hρ lb hl) (hw lb hl) hp)
     rw [List.append_nil] at h1
     have : absNode s1 = { absNode s with lockedRound := -1, lockedBlock := none } := by
       simp only [absNode, e1, e2, e3, e8, e9, e10, Option.map_none]
     rw [this]; exact h1
+
+/-- the same at the current round, before the precommit point -/
+theorem unlock_sim {c : SysCfg} {p : Val} {s s1 : Node} {L : List Vote} (hg : Good c p s L)
+    (hst : ¬ Step.precommit ≤ s.step) (w : Option Block) (hp : polka c.abs L s.height s.round w)
+    (hw : ∀ lb, s.lockedBlock = some lb → w ≠ some lb.id)
+    (e1 : s1.height = s.height) (e2 : s1.round = s.round) (e3 : s1.step = s.step)
+    (e4 : s1.votes = s.votes) (e5 : s1.queue = s.queue) (e6 : s1.sent = s.sent)
+    (e7 : s1.tickLast = s.tickLast) (e8 : s1.decided = s.decided)
+    (e9 : s1.lockedRound = -1) (e10 : s1.lockedBlock = none) :
+    Sim c p L s L s1 := by
+  refine unlock_sim_at hg s.round w hp (fun lb hl => ⟨?_, Nat.le_refl _⟩) hw e1 e2 e3 e4 e5 e6 e7 e8 e9 e10
+  rcases Int.lt_or_eq_of_le hg.1.lockR.1 with h1 | h1
+  · exact h1
+  · exact absurd (hg.1.lockR.2 h1) hst
 
 theorem hashesTo_some {b : Option Blk} {id : Block} (h : hashesTo b id = true) :
     ∃ lb, b = some lb ∧ lb.id = id := by
@@ -532,5 +544,452 @@ theorem enterPrecommit_sim {c : SysCfg} {p : Val} {s : Node} {L : List Vote} (hg
             intro lb hl he
             apply hlk; simp [hashesTo, hl, he]
           exact pcBlock_sim hg hst id hpol hne _
+
+-- ---------------------------------------------------------------- commit
+
+theorem newHeight_sim {c : SysCfg} {p : Val} {s : Node} {L : List Vote} (hg : Good c p s L)
+    (id : Block) (r : Nat) (hq : commitQ c.abs L s.height r id) :
+    Sim c p L s L (newHeight (c.node p) s id) := by
+  unfold newHeight
+  dsimp only
+  have f := schedule_fields
+    { s with height := s.height + 1, round := 0, step := .newHeight, proposal := none,
+             proposalBlock := none, proposalBlockParts := none, lockedRound := -1, lockedBlock := none,
+             validRound := -1, validBlock := none, votes := HVS.new (s.height + 1) (c.node p).vals,
+             commitRound := -1, triggeredTimeoutPrecommit := false,
+             decided := (s.height, id) :: s.decided } (s.height + 1) 0 .newHeight
+  obtain ⟨f1, f2, f3, f4, f5, f6, f7, f8, f9, _⟩ := f
+  refine ⟨⟨[], by rw [f6]; simp, by simp⟩, ?_, ?_, ?_, ?_⟩
+  · refine ⟨?_, ?_, ?_, ?_, ?_⟩
+    · rw [f1, f4]; exact HGood.new c (s.height + 1) L
+    · rw [f5]; exact hg.1.queue
+    · rw [f1, f2]
+      apply schedule_tick .newHeight _ rfl (Nat.le_refl _)
+      exact ⟨Nat.le_trans hg.1.tick.1 (Nat.le_succ _), fun he => by have := hg.1.tick.1; dsimp only at he; omega⟩
+    · rw [f7, f2]; exact ⟨by simp, fun he => by simp at he⟩
+    · intro _; rw [f7]
+  · have e : absNode (schedule
+        { s with height := s.height + 1, round := 0, step := .newHeight, proposal := none,
+                 proposalBlock := none, proposalBlockParts := none, lockedRound := -1, lockedBlock := none,
+                 validRound := -1, validBlock := none, votes := HVS.new (s.height + 1) (c.node p).vals,
+                 commitRound := -1, triggeredTimeoutPrecommit := false,
+                 decided := (s.height, id) :: s.decided } (s.height + 1) 0 .newHeight) =
+        { height := (absNode s).height + 1, round := 0, pvDone := false, pcDone := false,
+          lockedRound := -1, lockedBlock := none, decided := ((absNode s).height, id) :: (absNode s).decided } := by
+      simp only [absNode, f1, f2, f3, f7, f8, f9]
+      simp [Step.le_def, Step.toNat]
+    rw [e]
+    have := APath.single (c := c.abs) (p := p) (L := L) (AAct.decide (absNode s) id r hq)
+    rw [List.append_nil] at this
+    exact this
+  · rw [f1]; exact Nat.le_succ _
+  · intro he; rw [f1] at he; dsimp only at he; omega
+
+theorem tryFinalizeCommit_sim {c : SysCfg} {p : Val} {s : Node} {L : List Vote} (hg : Good c p s L)
+    (h : Nat) : ∃ L', Sim c p L s L' (tryFinalizeCommit (c.node p) s h) := by
+  unfold tryFinalizeCommit
+  split
+  · rename_i id hm
+    split
+    · rename_i hpb
+      -- finalizeCommit
+      unfold finalizeCommit
+      split
+      · exact ⟨L, Sim.refl hg⟩
+      · obtain ⟨pb, hpbe, hid⟩ := hashesTo_some hpb
+        rw [hpbe]
+        dsimp only
+        split
+        · -- panic("+2/3 committed an invalid block")
+          exact ⟨L, Sim.ofAdv' hg ⟨rfl, rfl, rfl, rfl, rfl, Or.inr ⟨rfl, fun h => h, fun h => h⟩⟩ rfl
+            (fun _ h => h) rfl⟩
+        · have hcr : ¬ s.commitRound < 0 := by
+            intro hlt; rw [if_pos hlt] at hm; cases hm
+          rw [if_neg hcr] at hm
+          have hq := hg.1.hvs.maj23_quorum hm
+          rw [hid]
+          exact ⟨L, newHeight_sim hg id _ hq⟩
+    · exact ⟨L, Sim.refl hg⟩
+  · exact ⟨L, Sim.refl hg⟩
+
+/-- `enterCommit` up to the call of `tryFinalizeCommit` -/
+def commitCore (s : Node) (id : Block) (cr : Nat) : Node :=
+  let s1 := if hashesTo s.lockedBlock id then
+              { s with proposalBlock := s.lockedBlock, proposalBlockParts := some id }
+            else s
+  let s2 := if !hashesTo s1.proposalBlock id ∧ s1.proposalBlockParts ≠ some id then
+              { s1 with proposalBlock := none, proposalBlockParts := some id }
+            else s1
+  { s2 with step := .commit, commitRound := cr }
+
+theorem enterCommit_unfold (k : NodeCfg) (s : Node) (h cr : Nat) :
+    enterCommit k s h cr =
+      if s.height ≠ h ∨ Step.commit ≤ s.step then s else
+      match s.votes.maj23 cr .precommit with
+      | some (some id) => tryFinalizeCommit k (commitCore s id cr) h
+      | _ => s := rfl
+
+theorem commitCore_fields (s : Node) (id : Block) (cr : Nat) :
+    (commitCore s id cr).height = s.height ∧ (commitCore s id cr).round = s.round ∧
+    (commitCore s id cr).step = .commit ∧ (commitCore s id cr).votes = s.votes ∧
+    (commitCore s id cr).sent = s.sent ∧ (commitCore s id cr).lockedRound = s.lockedRound ∧
+    (commitCore s id cr).lockedBlock = s.lockedBlock ∧ (commitCore s id cr).decided = s.decided ∧
+    (commitCore s id cr).tickLast = s.tickLast ∧ (commitCore s id cr).queue = s.queue := by
+  unfold commitCore
+  dsimp only
+  split <;> split <;> simp
+
+theorem enterCommit_sim {c : SysCfg} {p : Val} {s : Node} {L : List Vote} (hg : Good c p s L)
+    (h cr : Nat) : ∃ L', Sim c p L s L' (enterCommit (c.node p) s h cr) := by
+  rw [enterCommit_unfold]
+  split
+  · exact ⟨L, Sim.refl hg⟩
+  · split
+    · rename_i id hm
+      obtain ⟨f1, f2, f3, f4, f5, f6, f7, f8, f9, f10⟩ := commitCore_fields s id cr
+      have hsim : Sim c p L s L (commitCore s id cr) := by
+        refine Sim.ofAdv' hg ⟨f1, f6, f7, f8, f5, Or.inr ⟨f2, ?_, ?_⟩⟩ f4 (by rw [f10]; exact fun _ h => h) f9 <;>
+          (intro _; rw [f3, Step.le_def]; simp [Step.toNat])
+      exact hsim.then hg fun hg3 => tryFinalizeCommit_sim hg3 h
+    · exact ⟨L, Sim.refl hg⟩
+
+-- ---------------------------------------------------------------- proposals and block parts
+
+theorem setProposal_sim {c : SysCfg} {p : Val} {s : Node} {L : List Vote} (hg : Good c p s L)
+    (pr : Proposal) (sigOk : Bool) : Sim c p L s L (setProposal (c.node p) s pr sigOk) := by
+  unfold setProposal
+  split
+  · exact Sim.refl hg
+  · split
+    · exact Sim.refl hg
+    · split
+      · exact Sim.refl hg
+      · split
+        · exact Sim.refl hg
+        · exact Sim.ofAdv' hg ⟨rfl, rfl, rfl, rfl, rfl, Or.inr ⟨rfl, fun h => h, fun h => h⟩⟩ rfl
+            (fun _ h => h) rfl
+
+/-- `addProposalBlockPart` once the part is accepted and completes the block: `ProposalBlock` and
+`Valid*` updates -/
+def partCore (s : Node) (b : Blk) : Node :=
+  let s1 := { s with proposalBlock := some b }
+  match s1.votes.maj23 s1.round .prevote with
+  | some (some id) =>
+    if s1.validRound < s1.round ∧ b.id = id then
+      { s1 with validRound := s1.round, validBlock := some b }
+    else s1
+  | _ => s1
+
+theorem partCore_fields (s : Node) (b : Blk) :
+    (partCore s b).height = s.height ∧ (partCore s b).round = s.round ∧
+    (partCore s b).step = s.step ∧ (partCore s b).votes = s.votes ∧
+    (partCore s b).sent = s.sent ∧ (partCore s b).lockedRound = s.lockedRound ∧
+    (partCore s b).lockedBlock = s.lockedBlock ∧ (partCore s b).decided = s.decided ∧
+    (partCore s b).tickLast = s.tickLast ∧ (partCore s b).queue = s.queue := by
+  unfold partCore
+  dsimp only
+  split
+  · split <;> simp
+  · simp
+
+theorem addProposalBlockPart_unfold (k : NodeCfg) (s : Node) (h r : Nat) (b : Blk) :
+    addProposalBlockPart k s h r b =
+      if s.height ≠ h then s else
+      match s.proposalBlockParts with
+      | none => s
+      | some hdr =>
+        if hdr ≠ b.id then s
+        else if s.proposalBlock.isSome then s
+        else
+          if (partCore s b).step ≤ Step.propose ∧ isProposalComplete (partCore s b) then
+            if (s.votes.maj23 s.round .prevote).isSome then
+              enterPrecommit k (enterPrevote k (partCore s b) h (partCore s b).round) h
+                (enterPrevote k (partCore s b) h (partCore s b).round).round
+            else enterPrevote k (partCore s b) h (partCore s b).round
+          else if (partCore s b).step = .commit then tryFinalizeCommit k (partCore s b) h
+          else partCore s b := rfl
+
+theorem addProposalBlockPart_sim {c : SysCfg} {p : Val} {s : Node} {L : List Vote} (hg : Good c p s L)
+    (h r : Nat) (b : Blk) : ∃ L', Sim c p L s L' (addProposalBlockPart (c.node p) s h r b) := by
+  rw [addProposalBlockPart_unfold]
+  split
+  · exact ⟨L, Sim.refl hg⟩
+  · split
+    · exact ⟨L, Sim.refl hg⟩
+    · split
+      · exact ⟨L, Sim.refl hg⟩
+      · split
+        · exact ⟨L, Sim.refl hg⟩
+        · obtain ⟨f1, f2, f3, f4, f5, f6, f7, f8, f9, f10⟩ := partCore_fields s b
+          have hsim : Sim c p L s L (partCore s b) :=
+            Sim.ofAdv' hg ⟨f1, f6, f7, f8, f5, Or.inr ⟨f2, by rw [f3]; exact fun h => h,
+              by rw [f3]; exact fun h => h⟩⟩ f4 (by rw [f10]; exact fun _ h => h) f9
+          split
+          · split
+            · refine hsim.then hg fun hg2 => ?_
+              obtain ⟨L1, h1⟩ := enterPrevote_sim hg2 h _ (Nat.le_refl _)
+              exact h1.then hg2 fun hg3 => enterPrecommit_sim hg3 h _ (Nat.le_refl _)
+            · exact hsim.then hg fun hg2 => enterPrevote_sim hg2 h _ (Nat.le_refl _)
+          · split
+            · exact hsim.then hg fun hg2 => tryFinalizeCommit_sim hg2 h
+            · exact ⟨L, hsim⟩
+
+-- ---------------------------------------------------------------- votes
+
+/-- `cs.LockedBlock.HashesTo(blockID.Hash)` for a polka value (nil hashes to nothing) -/
+def lockedIs (s : Node) (bid : Option Block) : Bool :=
+  match bid with
+  | some id => hashesTo s.lockedBlock id
+  | none => false
+
+/-- `cs.Proposal != nil && 0 <= cs.Proposal.POLRound && cs.Proposal.POLRound == vote.Round` -/
+def polMatch (s : Node) (v : Vote) : Bool :=
+  match s.proposal with
+  | some p => decide (0 ≤ p.polRound ∧ p.polRound = v.round)
+  | none => false
+
+/-- `addVote`, prevote branch: "Unlock if `cs.LockedRound < vote.Round <= cs.Round`" -/
+def pvUnlock (s : Node) (v : Vote) (bid : Option Block) : Node :=
+  if s.lockedBlock.isSome ∧ s.lockedRound < v.round ∧ v.round ≤ s.round ∧ !lockedIs s bid then
+    { s with lockedRound := -1, lockedBlock := none }
+  else s
+
+/-- `addVote`, prevote branch: "Update Valid* if we can" -/
+def pvValid (s1 : Node) (v : Vote) (bid : Option Block) : Node :=
+  match bid with
+  | some id =>
+    if s1.validRound < v.round ∧ v.round = s1.round then
+      let s1a := if hashesTo s1.proposalBlock id then
+                   { s1 with validRound := v.round, validBlock := s1.proposalBlock }
+                 else { s1 with proposalBlock := none }
+      if s1a.proposalBlockParts = some id then s1a
+      else { s1a with proposalBlockParts := some id }
+    else s1
+  | none => s1
+
+def pvCore (s : Node) (v : Vote) : Node :=
+  match s.votes.maj23 v.round .prevote with
+  | none => s
+  | some bid => pvValid (pvUnlock s v bid) v bid
+
+theorem afterPrevote_unfold (k : NodeCfg) (s : Node) (v : Vote) :
+    afterPrevote k s v =
+      if (pvCore s v).round < v.round ∧ (pvCore s v).votes.hasTwoThirdsAny v.round .prevote then
+        enterNewRound k (pvCore s v) s.height v.round
+      else if (pvCore s v).round = v.round ∧ Step.prevote ≤ (pvCore s v).step then
+        if (s.votes.maj23 v.round .prevote).isSome ∧
+            (isProposalComplete (pvCore s v) ∨ s.votes.maj23 v.round .prevote = some none) then
+          enterPrecommit k (pvCore s v) s.height v.round
+        else if (pvCore s v).votes.hasTwoThirdsAny v.round .prevote then
+          enterPrevoteWait (pvCore s v) s.height v.round
+        else pvCore s v
+      else if polMatch (pvCore s v) v then
+        if isProposalComplete (pvCore s v) then enterPrevote k (pvCore s v) s.height (pvCore s v).round
+        else pvCore s v
+      else pvCore s v := rfl
+
+theorem pvValid_fields (s : Node) (v : Vote) (bid : Option Block) :
+    (pvValid s v bid).height = s.height ∧ (pvValid s v bid).round = s.round ∧
+    (pvValid s v bid).step = s.step ∧ (pvValid s v bid).votes = s.votes ∧
+    (pvValid s v bid).sent = s.sent ∧ (pvValid s v bid).lockedRound = s.lockedRound ∧
+    (pvValid s v bid).lockedBlock = s.lockedBlock ∧ (pvValid s v bid).decided = s.decided ∧
+    (pvValid s v bid).tickLast = s.tickLast ∧ (pvValid s v bid).queue = s.queue := by
+  unfold pvValid
+  cases bid with
+  | none => simp
+  | some id =>
+    dsimp only
+    split
+    · split <;> split <;> simp
+    · simp
+
+theorem pvCore_sim {c : SysCfg} {p : Val} {s : Node} {L : List Vote} (hg : Good c p s L) (v : Vote) :
+    Sim c p L s L (pvCore s v) := by
+  unfold pvCore
+  cases hm : s.votes.maj23 v.round .prevote with
+  | none => exact Sim.refl hg
+  | some bid =>
+    dsimp only
+    have hpol : polka c.abs L s.height v.round bid := hg.1.hvs.maj23_quorum hm
+    have h1 : Sim c p L s L (pvUnlock s v bid) := by
+      unfold pvUnlock
+      split
+      · rename_i hc
+        obtain ⟨_, hc2, hc3, hc4⟩ := hc
+        refine unlock_sim_at hg v.round bid hpol (fun _ _ => ⟨hc2, hc3⟩) ?_
+          rfl rfl rfl rfl rfl rfl rfl rfl rfl rfl
+        intro lb hl he
+        subst he
+        simp [lockedIs, hl, hashesTo] at hc4
+      · exact Sim.refl hg
+    obtain ⟨f1, f2, f3, f4, f5, f6, f7, f8, f9, f10⟩ := pvValid_fields (pvUnlock s v bid) v bid
+    have h2 : Sim c p L (pvUnlock s v bid) L (pvValid (pvUnlock s v bid) v bid) :=
+      Sim.ofAdv' (h1.good hg) ⟨f1, f6, f7, f8, f5, Or.inr ⟨f2, by rw [f3]; exact fun h => h,
+        by rw [f3]; exact fun h => h⟩⟩ f4 (by rw [f10]; exact fun _ h => h) f9
+    exact h1.trans h2
+
+theorem afterPrevote_sim {c : SysCfg} {p : Val} {s : Node} {L : List Vote} (hg : Good c p s L) (v : Vote) :
+    ∃ L', Sim c p L s L' (afterPrevote (c.node p) s v) := by
+  rw [afterPrevote_unfold]
+  have hsim := pvCore_sim hg v
+  split
+  · exact hsim.then hg fun hg2 => enterNewRound_sim hg2 _ _
+  · split
+    · rename_i hc
+      split
+      · exact hsim.then hg fun hg2 => enterPrecommit_sim hg2 _ _ (Nat.le_of_eq hc.1.symm)
+      · split
+        · exact hsim.then hg fun hg2 => enterPrevoteWait_sim hg2 _ _ (Nat.le_of_eq hc.1.symm)
+        · exact ⟨L, hsim⟩
+    · split
+      · split
+        · exact hsim.then hg fun hg2 => enterPrevote_sim hg2 _ _ (Nat.le_refl _)
+        · exact ⟨L, hsim⟩
+      · exact ⟨L, hsim⟩
+
+theorem enterPrecommit_of_height_ne (k : NodeCfg) (s : Node) (h r : Nat) (hne : s.height ≠ h) :
+    enterPrecommit k s h r = s := by
+  rw [enterPrecommit_unfold, if_pos (Or.inl hne)]
+
+theorem enterPrecommitWait_of_height_ne (s : Node) (h r : Nat) (hne : s.height ≠ h) :
+    enterPrecommitWait s h r = s := by
+  unfold enterPrecommitWait; rw [if_pos (Or.inl hne)]
+
+/-- `enterNewRound(height, r)` then `enterPrecommit(height, r)` -/
+theorem newRound_precommit_sim {c : SysCfg} {p : Val} {s : Node} {L : List Vote} (hg : Good c p s L)
+    (r : Nat) : ∃ L', Sim c p L s L'
+      (enterPrecommit (c.node p) (enterNewRound (c.node p) s s.height r) s.height r) ∧
+      ((enterPrecommit (c.node p) (enterNewRound (c.node p) s s.height r) s.height r).height = s.height →
+        r ≤ (enterPrecommit (c.node p) (enterNewRound (c.node p) s s.height r) s.height r).round) := by
+  obtain ⟨L1, h1⟩ := enterNewRound_sim hg s.height r
+  by_cases hh : (enterNewRound (c.node p) s s.height r).height = s.height
+  · have hr1 := enterNewRound_round hg r h1 hh
+    obtain ⟨L2, h2⟩ := enterPrecommit_sim (h1.good hg) s.height r hr1
+    refine ⟨L2, h1.trans h2, fun he => ?_⟩
+    exact Nat.le_trans hr1 (h2.rmono (by rw [he, hh]))
+  · rw [enterPrecommit_of_height_ne _ _ _ _ hh]
+    exact ⟨L1, h1, fun he => absurd he hh⟩
+
+theorem afterPrecommit_sim {c : SysCfg} {p : Val} {s : Node} {L : List Vote} (hg : Good c p s L) (v : Vote) :
+    ∃ L', Sim c p L s L' (afterPrecommit (c.node p) s v) := by
+  unfold afterPrecommit
+  dsimp only
+  split
+  · rename_i bid hm
+    obtain ⟨L2, h2, hr2⟩ := newRound_precommit_sim hg v.round
+    split
+    · exact ⟨L2, h2⟩
+    · split
+      · exact h2.then hg fun hg2 => enterCommit_sim hg2 _ _
+      · by_cases hh : (enterPrecommit (c.node p) (enterNewRound (c.node p) s s.height v.round) s.height
+            v.round).height = s.height
+        · exact h2.then hg fun hg2 => enterPrecommitWait_sim hg2 _ _ (hr2 hh)
+        · rw [enterPrecommitWait_of_height_ne _ _ _ hh]
+          exact ⟨L2, h2⟩
+  · split
+    · obtain ⟨L1, h1⟩ := enterNewRound_sim hg s.height v.round
+      by_cases hh : (enterNewRound (c.node p) s s.height v.round).height = s.height
+      · exact h1.then hg fun hg2 => enterPrecommitWait_sim hg2 _ _ (enterNewRound_round hg v.round h1 hh)
+      · rw [enterPrecommitWait_of_height_ne _ _ _ hh]
+        exact ⟨L1, h1⟩
+    · exact ⟨L, Sim.refl hg⟩
+
+theorem addVote_sim {c : SysCfg} {p : Val} {s : Node} {L : List Vote} (hg : Good c p s L)
+    (v : Vote) (peer : Nat) (sigOk : Bool) (hv : sigOk = true → v ∈ L) :
+    ∃ L', Sim c p L s L' (addVote (c.node p) s v peer sigOk) := by
+  unfold addVote
+  split
+  · exact ⟨L, Sim.refl hg⟩
+  · split
+    · exact ⟨L, Sim.refl hg⟩
+    · rename_i hne hh
+      have hh' : v.height = s.height := Decidable.not_not.mp hh
+      dsimp only
+      have hs1 : Sim c p L s L { s with votes := (s.votes.addVote v peer sigOk).1 } :=
+        Sim.ofAdv hg ⟨rfl, rfl, rfl, rfl, rfl, Or.inr ⟨rfl, fun h => h, fun h => h⟩⟩
+          (hg.1.hvs.addVote v peer sigOk hv hh') hg.1.queue hg.1.tick
+      split
+      · exact ⟨L, hs1⟩
+      · split
+        · exact hs1.then hg fun hg2 => afterPrevote_sim hg2 v
+        · exact hs1.then hg fun hg2 => afterPrecommit_sim hg2 v
+
+theorem handleMsg_sim {c : SysCfg} {p : Val} {s : Node} {L : List Vote} (hg : Good c p s L)
+    (m : Msg) (peer : Nat) (sigOk : Bool) (hv : ∀ v, m = .vote v → sigOk = true → v ∈ L) :
+    ∃ L', Sim c p L s L' (handleMsg (c.node p) s m peer sigOk) := by
+  unfold handleMsg
+  cases m with
+  | proposal pr => exact ⟨L, setProposal_sim hg pr sigOk⟩
+  | blockPart h r b => exact addProposalBlockPart_sim hg h r b
+  | vote v => exact addVote_sim hg v peer sigOk (hv v rfl)
+
+theorem handleTimeout_sim {c : SysCfg} {p : Val} {s : Node} {L : List Vote} (hg : Good c p s L)
+    (ti : Tick) (hti : ti.height = s.height → ti.round ≤ s.round) :
+    ∃ L', Sim c p L s L' (handleTimeout (c.node p) s ti) := by
+  unfold handleTimeout
+  split
+  · exact ⟨L, Sim.refl hg⟩
+  · rename_i hguard
+    simp only [not_or, not_and, Decidable.not_not] at hguard
+    have hr : ti.round ≤ s.round := hti hguard.1
+    split
+    · exact enterNewRound_sim hg _ _
+    · exact enterPropose_sim hg _ _ (Nat.zero_le _)
+    · exact enterPrevote_sim hg _ _ hr
+    · exact enterPrecommit_sim hg _ _ hr
+    · obtain ⟨L1, h1⟩ := enterPrecommit_sim hg ti.height ti.round hr
+      dsimp only
+      split
+      · exact ⟨L1, h1⟩
+      · exact h1.then hg fun hg2 => enterNewRound_sim hg2 _ _
+    · exact ⟨L, Sim.ofAdv' hg ⟨rfl, rfl, rfl, rfl, rfl, Or.inr ⟨rfl, fun h => h, fun h => h⟩⟩ rfl
+        (fun _ h => h) rfl⟩
+
+/-- **One iteration of the receive routine is simulated by the abstract protocol.** -/
+theorem handle_sim {c : SysCfg} {p : Val} {s : Node} {L : List Vote} (hg : Good c p s L)
+    (i : Input) (hi : InputOK L i) : ∃ L', Sim c p L s L' (handle (c.node p) s i) := by
+  unfold handle
+  split
+  · exact ⟨L, Sim.refl hg⟩
+  · cases i with
+    | start =>
+      dsimp only
+      have f := schedule_fields s s.height 0 .newHeight
+      obtain ⟨f1, f2, f3, f4, f5, f6, f7, f8, f9, _⟩ := f
+      refine ⟨L, Sim.ofAdv hg ⟨f1, f7, f8, f9, f6, Or.inr ⟨f2, by rw [f3]; exact fun h => h,
+        by rw [f3]; exact fun h => h⟩⟩ (by rw [f1, f4]; exact hg.1.hvs) (by rw [f5]; exact hg.1.queue) ?_⟩
+      rw [f1, f2]
+      exact schedule_tick .newHeight hg.1.tick rfl (Nat.zero_le _)
+    | peer m pr ok =>
+      dsimp only
+      apply handleMsg_sim hg
+      intro v hm hok
+      subst hm; subst hok
+      exact hi
+    | internal =>
+      dsimp only
+      cases hq : s.queue with
+      | nil => exact ⟨L, Sim.refl hg⟩
+      | cons m q =>
+        dsimp only
+        have hs0 : Sim c p L s L { s with queue := q } :=
+          Sim.ofAdv' hg ⟨rfl, rfl, rfl, rfl, rfl, Or.inr ⟨rfl, fun h => h, fun h => h⟩⟩ rfl
+            (fun v hv => by rw [hq]; exact List.mem_cons_of_mem _ hv) rfl
+        refine hs0.then hg fun hg2 => handleMsg_sim hg2 m 0 true ?_
+        intro v hm _
+        subst hm
+        exact hg.1.queue v (by rw [hq]; exact List.mem_cons_self)
+    | timeout =>
+      dsimp only
+      split
+      · exact ⟨L, Sim.refl hg⟩
+      · have hs0 : Sim c p L s L { s with tickArmed := false } :=
+          Sim.ofAdv' hg ⟨rfl, rfl, rfl, rfl, rfl, Or.inr ⟨rfl, fun h => h, fun h => h⟩⟩ rfl
+            (fun _ h => h) rfl
+        exact hs0.then hg fun hg2 => handleTimeout_sim hg2 s.tickLast hg.1.tick.2
+    | maj23 pr r t b =>
+      dsimp only
+      exact ⟨L, Sim.ofAdv hg ⟨rfl, rfl, rfl, rfl, rfl, Or.inr ⟨rfl, fun h => h, fun h => h⟩⟩
+        (hg.1.hvs.setPeerMaj23 r t pr b) hg.1.queue hg.1.tick⟩
 
 end GnoVerif.C31
